@@ -75,10 +75,11 @@ theorem save_inv (s : Sim) (h : Inv s) : Inv (save .recordStepped s) := by
 
 /-- every step keeps it consistent: rows produced at an epoch beyond the pre-inserted span wait
 together with that epoch -/
-theorem step_inv (dt out : Nat) (s : Sim) (rows : List Nat) (h : Inv s) :
+theorem step_inv (dt out : Nat) (s : Sim) (rows : StepIn) (h : Inv s) :
     Inv (step .recordStepped dt out s rows) := by
   have h1 : Inv { s with time := s.time + dt, pendingEpochs := s.pendingEpochs ++ [s.time + dt],
-                         pendingTrans := s.pendingTrans ++ rows.map (·, s.time + dt) } := by
+                         pendingTrans := s.pendingTrans ++ rows.rows.map (·, s.time + dt),
+                         agents := rows.agents, tracked := rows.tracked } := by
     obtain ⟨hn, ht, he, htr, hp⟩ := h
     refine ⟨hn, ht, he, htr, ?_⟩
     intro r hr
@@ -106,10 +107,10 @@ theorem init_inv (dt span : Nat) (hdt : 0 < dt) (agents tracked : List Nat) :
 /-- **referential consistency after any run**: every truth, estimate and transient row refers to
 an existing epoch and epochs are unique — for any step, output step, span (also runs that go past
 the configured stop time) and any rows produced along the way. -/
-theorem fk_closed (dt out span : Nat) (hdt : 0 < dt) (agents tracked : List Nat) (rows : List (List Nat)) :
+theorem fk_closed (dt out span : Nat) (hdt : 0 < dt) (agents tracked : List Nat) (rows : List StepIn) :
     Inv (run .recordStepped dt out (init .recordStepped dt span agents tracked) rows) := by
   unfold run
-  have : ∀ (rows : List (List Nat)) (s : Sim), Inv s → Inv (rows.foldl (step .recordStepped dt out) s) := by
+  have : ∀ (rows : List StepIn) (s : Sim), Inv s → Inv (rows.foldl (step .recordStepped dt out) s) := by
     intro rows
     induction rows with
     | nil => intro s h; exact h
@@ -118,7 +119,7 @@ theorem fk_closed (dt out span : Nat) (hdt : 0 < dt) (agents tracked : List Nat)
 
 /-- one call or several consecutive calls: the same database (the output test looks at the clock,
 not at the call) -/
-theorem split_run_same (dt out : Nat) (s : Sim) (r1 r2 : List (List Nat)) :
+theorem split_run_same (dt out : Nat) (s : Sim) (r1 r2 : List StepIn) :
     run .recordStepped dt out (run .recordStepped dt out s r1) r2 = run .recordStepped dt out s (r1 ++ r2) := by
   simp [run, List.foldl_append]
 
@@ -126,54 +127,101 @@ theorem split_run_same (dt out : Nat) (s : Sim) (r1 r2 : List (List Nat)) :
 `output_step = 2·dt`, a row produced at the intermediate step referred to an epoch that was never
 stored (span 120 s, dt 60, output 120, three steps past the span). -/
 theorem fk_beyond_span_unrepaired :
-    let s := run .currentOnly 60 120 (init .currentOnly 60 120 [1] [1]) [[7], [8], [9], [10]]
+    let s := run .currentOnly 60 120 (init .currentOnly 60 120 [1] [1]) (constSteps [1] [1] [[7], [8], [9], [10]])
     (9, 180) ∈ s.db.trans ∧ 180 ∉ s.db.epochs ∧
-    (let s' := run .recordStepped 60 120 (init .recordStepped 60 120 [1] [1]) [[7], [8], [9], [10]]
+    (let s' := run .recordStepped 60 120 (init .recordStepped 60 120 [1] [1]) (constSteps [1] [1] [[7], [8], [9], [10]])
      (9, 180) ∈ s'.db.trans ∧ 180 ∈ s'.db.epochs) := by
   decide +kernel
 
-/-- truth rows: the initial state plus exactly one row per agent for every output epoch -/
-theorem truth_rows_exact (dt out : Nat) (agents tracked : List Nat) (span : Nat) :
-    ∀ (rows : List (List Nat)),
-      (run .recordStepped dt out (init .recordStepped dt span agents tracked) rows).db.truth
-        = ((0 :: ((List.range rows.length).map fun k => (k + 1) * dt).filter fun t => t % out = 0).flatMap fun t => agents.map (·, t)) := by
-  intro rows
-  have key : ∀ (rows : List (List Nat)) (s : Sim), s.agents = agents →
-      (run .recordStepped dt out s rows).db.truth
-        = s.db.truth ++ ((((List.range rows.length).map fun k => s.time + (k + 1) * dt).filter fun t => t % out = 0).flatMap fun t => agents.map (·, t)) ∧
-      (run .recordStepped dt out s rows).agents = agents := by
-    intro rows
-    induction rows with
-    | nil => intro s hs; simp [run, hs]
+/-- the output epochs among the first `n` steps after time `t0`, with the step that reaches them -/
+def outputSteps (dt out t0 : Nat) (steps : List StepIn) : List (StepIn × Nat) :=
+  (steps.zipIdx.map fun p => (p.1, t0 + (p.2 + 1) * dt)).filter fun p => p.2 % out = 0
+
+/-- **truth and estimate rows, with agents joining and leaving**: the initial state, plus for every output epoch exactly
+one truth row per agent the scenario holds at that epoch and one estimate row per tracked target - no row for an agent
+before it joined or after it left, none twice -/
+theorem rows_exact (dt out : Nat) (agents tracked : List Nat) (span : Nat) (steps : List StepIn) :
+    (run .recordStepped dt out (init .recordStepped dt span agents tracked) steps).db.truth
+      = agents.map (·, 0) ++ (outputSteps dt out 0 steps).flatMap (fun p => p.1.agents.map (·, p.2)) ∧
+    (run .recordStepped dt out (init .recordStepped dt span agents tracked) steps).db.est
+      = tracked.map (·, 0) ++ (outputSteps dt out 0 steps).flatMap (fun p => p.1.tracked.map (·, p.2)) := by
+  have key : ∀ (steps : List StepIn) (s : Sim),
+      (run .recordStepped dt out s steps).db.truth
+        = s.db.truth ++ (outputSteps dt out s.time steps).flatMap (fun p => p.1.agents.map (·, p.2)) ∧
+      (run .recordStepped dt out s steps).db.est
+        = s.db.est ++ (outputSteps dt out s.time steps).flatMap (fun p => p.1.tracked.map (·, p.2)) := by
+    intro steps
+    induction steps with
+    | nil => intro s; simp [run, outputSteps]
     | cons r rs ih =>
-      intro s hs
-      have hstep : (step .recordStepped dt out s r).agents = agents := by
-        unfold step; simp only; split <;> simp [save, hs]
+      intro s
       have htime : (step .recordStepped dt out s r).time = s.time + dt := by
         unfold step; simp only; split <;> simp [save]
-      obtain ⟨i1, i2⟩ := ih (step .recordStepped dt out s r) hstep
-      refine ⟨?_, ?_⟩
+      have htr : (step .recordStepped dt out s r).db.truth
+          = s.db.truth ++ (if (s.time + dt) % out = 0 then r.agents.map (·, s.time + dt) else []) := by
+        unfold step; simp only; split <;> simp [save]
+      have hes : (step .recordStepped dt out s r).db.est
+          = s.db.est ++ (if (s.time + dt) % out = 0 then r.tracked.map (·, s.time + dt) else []) := by
+        unfold step; simp only; split <;> simp [save]
+      obtain ⟨i1, i2⟩ := ih (step .recordStepped dt out s r)
+      have hshift : outputSteps dt out s.time (r :: rs)
+          = (if (s.time + dt) % out = 0 then [(r, s.time + dt)] else []) ++ outputSteps dt out (s.time + dt) rs := by
+        unfold outputSteps
+        rw [List.zipIdx_cons, List.map_cons, List.filter_cons]
+        have e0 : s.time + (0 + 1) * dt = s.time + dt := by ring
+        have etail : (rs.zipIdx (0 + 1)).map (fun p => (p.1, s.time + (p.2 + 1) * dt))
+            = (rs.zipIdx).map (fun p => (p.1, s.time + dt + (p.2 + 1) * dt)) := by
+          rw [List.zipIdx_succ]
+          rw [List.map_map]
+          apply List.map_congr_left
+          intro p _
+          simp only [Function.comp, Prod.map, id]
+          congr 1
+          ring
+        simp only [e0]
+        rw [etail]
+        by_cases hc : (s.time + dt) % out = 0 <;> simp [hc]
+      constructor
       · show (run .recordStepped dt out (step .recordStepped dt out s r) rs).db.truth = _
-        rw [i1, htime]
-        have htr : (step .recordStepped dt out s r).db.truth
-            = s.db.truth ++ (if (s.time + dt) % out = 0 then agents.map (·, s.time + dt) else []) := by
-          unfold step; simp only; split <;> simp [save, hs]
-        rw [htr, List.length_cons, List.range_succ_eq_map, List.map_cons, List.map_map, List.filter_cons]
-        have e : (fun k => s.time + dt + (k + 1) * dt) = ((fun k => s.time + (k + 1) * dt) ∘ Nat.succ) := by
-          funext k; simp only [Function.comp, Nat.succ_eq_add_one]; ring
-        rw [e]
-        have z : s.time + (0 + 1) * dt = s.time + dt := by ring
-        rw [z]
-        by_cases hc : (s.time + dt) % out = 0
-        · simp [hc, List.flatMap_cons, List.append_assoc]
-        · simp [hc]
-      · exact i2
-  have hinit : (init .recordStepped dt span agents tracked).agents = agents := by simp [init, save]
-  obtain ⟨h1, _⟩ := key rows _ hinit
-  rw [h1]
+        rw [i1, htime, htr, hshift]
+        by_cases hc : (s.time + dt) % out = 0 <;> simp [hc, List.flatMap_append, List.append_assoc]
+      · show (run .recordStepped dt out (step .recordStepped dt out s r) rs).db.est = _
+        rw [i2, htime, hes, hshift]
+        by_cases hc : (s.time + dt) % out = 0 <;> simp [hc, List.flatMap_append, List.append_assoc]
+  obtain ⟨h1, h2⟩ := key steps (init .recordStepped dt span agents tracked)
   have ht0 : (init .recordStepped dt span agents tracked).time = 0 := by simp [init, save]
   have htr0 : (init .recordStepped dt span agents tracked).db.truth = agents.map (·, 0) := by simp [init, save]
-  rw [ht0, htr0]
-  simp [List.flatMap_cons]
+  have hes0 : (init .recordStepped dt span agents tracked).db.est = tracked.map (·, 0) := by simp [init, save]
+  rw [h1, h2, ht0, htr0, hes0]
+  exact ⟨rfl, rfl⟩
+
+/-- with a fixed set of agents: one truth row per agent for the start and for every output epoch -/
+theorem truth_rows_exact (dt out : Nat) (agents tracked : List Nat) (span : Nat) (rows : List (List Nat)) :
+    (run .recordStepped dt out (init .recordStepped dt span agents tracked) (constSteps agents tracked rows)).db.truth
+      = agents.map (·, 0) ++ (outputSteps dt out 0 (constSteps agents tracked rows)).flatMap (fun p => agents.map (·, p.2)) := by
+  rw [(rows_exact dt out agents tracked span _).1]
+  congr 1
+  apply List.flatMap_congr
+  intro p hp
+  have : p.1.agents = agents := by
+    unfold outputSteps at hp
+    obtain ⟨hm, _⟩ := List.mem_filter.mp hp
+    obtain ⟨q, hq, rfl⟩ := List.mem_map.mp hm
+    have hq1 : q.1 ∈ constSteps agents tracked rows := by
+      have := List.mem_zipIdx' hq
+      rw [this.2]
+      exact List.getElem_mem _
+    unfold constSteps at hq1
+    obtain ⟨r, _, hr⟩ := List.mem_map.mp hq1
+    rw [← hr]
+  rw [this]
+
+/-- a target that leaves is not written afterwards, one that joins is not written before: witness -/
+theorem membership_witness :
+    let s := run .recordStepped 60 60 (init .recordStepped 60 180 [1, 9] [1])
+      [⟨[], [1, 2, 9], [1, 2]⟩, ⟨[], [2, 9], [2]⟩, ⟨[], [2, 9], [2]⟩]
+    s.db.truth = [(1, 0), (9, 0), (1, 60), (2, 60), (9, 60), (2, 120), (9, 120), (2, 180), (9, 180)] ∧
+    s.db.est = [(1, 0), (1, 60), (2, 60), (2, 120), (2, 180)] := by
+  decide +kernel
 
 end RV.Props.C09
